@@ -368,13 +368,13 @@ Proof.
     + intros b Hb. apply Hs. now right.
 Qed.
 
-Lemma sound_loop d fuel : forall q s s', loop fuel q s = Done s' -> sR s = [] -> sound d s ->
-  (forall a, In a q -> reached d a) -> sound d s'.
+Lemma sound_loop d fuel : forall q s s', (loop fuel q s = Done s' \/ loop fuel q s = Unfulfilled s') ->
+  sR s = [] -> sound d s -> (forall a, In a q -> reached d a) -> sound d s'.
 Proof.
-  induction fuel as [|f IH]; intros q s s' H HR S Hq; cbn [loop] in H; [discriminate|].
+  induction fuel as [|f IH]; intros q s s' H HR S Hq; cbn [loop] in H; [destruct H; discriminate|].
   destruct q as [|a q].
-  - destruct (sD s); [|discriminate]. now injection H as <-.
-  - destruct (exec_act a s) as [s1|s1] eqn:E; [|discriminate].
+  - assert (s' = s) as -> by (destruct (sD s); destruct H as [H|H]; congruence). exact S.
+  - destruct (exec_act a s) as [s1|s1] eqn:E; [|destruct H; discriminate].
     assert (S1 : sound d s1) by (eapply (proj1 (sound_exec d)); [exact E|exact S|apply Hq; now left]).
     eapply IH; [exact H|reflexivity| |].
     + destruct S1 as [A B C]. split; cbn [takeR sX sP]; auto.
@@ -384,12 +384,14 @@ Proof.
       apply (snd_pend _ _ S1). unfold pend. apply in_or_app. now right.
 Qed.
 
-Lemma sound_run d s : run d = Done s -> sound d s.
+Lemma sound_end d s : run d = Done s \/ run d = Unfulfilled s -> sound d s.
 Proof.
   unfold run. intro H. eapply sound_loop; [exact H|reflexivity| |].
   - split; cbn; tauto.
   - intros a Ha. now left.
 Qed.
+Lemma sound_run d s : run d = Done s -> sound d s.
+Proof. intro H. apply sound_end. now left. Qed.
 
 (* completeness: when the queue runs empty without a duplicate, everything that fires has been executed *)
 Definition live (s : st) (a : act) : Prop := In a (pend s) \/ In a (sX s).
@@ -752,12 +754,35 @@ Proof.
   - exfalso. exact (run_terminates d' s' E).
 Qed.
 
-Lemma done_complete d s : run d = Done s ->
+Lemma end_complete d s : run d = Done s \/ run d = Unfulfilled s ->
   (forall a, fired d a -> In a (sX s)) /\ (forall p, avail d p -> memP p (sP s) = true).
 Proof.
   intro H. unfold run in H.
-  destruct (loop_end d _ _ _ _ (or_introl H) eq_refl (cmpl_init d)) as (C & HR & _).
+  destruct (loop_end d _ _ _ _ H eq_refl (cmpl_init d)) as (C & HR & _).
   now apply cmpl_final.
+Qed.
+Lemma done_complete d s : run d = Done s ->
+  (forall a, fired d a -> In a (sX s)) /\ (forall p, avail d p -> memP p (sP s) = true).
+Proof. intro H. apply end_complete. now left. Qed.
+
+(* without a duplicate, the executed actions are exactly those that fire, the resolved promises exactly
+   those that become available — a description that does not mention the order of the document *)
+Lemma executed_iff_fired d s : run d = Done s \/ run d = Unfulfilled s ->
+  (forall a, In a (sX s) <-> fired d a) /\ (forall p, memP p (sP s) = true <-> avail d p).
+Proof.
+  intro H. pose proof (sound_end _ _ H) as S. destruct (end_complete _ _ H) as [C1 C2]. split.
+  - intro a. split; [apply (snd_X _ _ S)|apply C1].
+  - intro p. split; [|apply C2]. intro M. apply (snd_P _ _ S). now apply memP_In.
+Qed.
+
+Lemma fired_perm_iff d d' : Permutation d d' ->
+  (forall a, fired d a <-> fired d' a) /\ (forall p, avail d p <-> avail d' p).
+Proof.
+  intro HP. split; intro x; split.
+  - apply (fired_perm d d'). intros y Hy. eapply Permutation_in; eauto.
+  - apply (fired_perm d' d). intros y Hy. eapply Permutation_in; [symmetry; exact HP|exact Hy].
+  - apply (fired_perm d d'). intros y Hy. eapply Permutation_in; eauto.
+  - apply (fired_perm d' d). intros y Hy. eapply Permutation_in; [symmetry; exact HP|exact Hy].
 Qed.
 
 (* every promise an action of the document mentions is declared, when the run succeeds *)
@@ -912,10 +937,10 @@ Proof.
   intros DL DV o a. split.
   - destruct (wl_cells pm o a x) as [H|(c & Hc & Ec)]; [now left|].
     destruct (wl_cells pm o a y) as [H|(c' & Hc' & Ec')]; [now right|].
-    exfalso. eapply disj_spec; eauto.
+    exfalso. exact (disj_spec _ _ c c' o a DL Hc Hc' Ec Ec').
   - destruct (wv_cells pm o a x) as [H|(c & Hc & Ec)]; [now left|].
     destruct (wv_cells pm o a y) as [H|(c' & Hc' & Ec')]; [now right|].
-    exfalso. eapply disj_spec; eauto.
+    exfalso. exact (disj_spec _ _ c c' o a DV Hc Hc' Ec Ec').
 Qed.
 
 Lemma indep_check_sound pm l : indep_check pm l = true -> cell_indep pm l.
